@@ -208,10 +208,10 @@ impl<M: Hash + Eq + Clone, A: Ord + Hash + Clone> CvRDT for Orswot<M, A> {
         //@ proof { assert(old(self).wf() && other.wf() && params_ok::<M, A>()); }
         self.entries = /*@ shim_hashmap_filter_map_collect( @*/ mem::take(&mut self.entries)
             /*@<*/ .into_iter()
-            .filter_map( /*@>*/ /*@ , @*/ /*@<*/ |(entry, mut clock)| /*@>*/ /*@ |p: (M, VClock<A>)| -> (o: Option<(M, VClock<A>)>)
+            .filter_map( /*@>*/ /*@ , @*/ /*@<*/ | /*@>*/ /*@<pat*/ (entry, mut clock) /*@>*/ /*@<*/ | /*@>*/ /*@ |p: (M, VClock<A>)| -> (o: Option<(M, VClock<A>)>)
                 requires actor_ok::<A>(), key_ok::<M>(), nz(p.1@), nz(other.clock@),
                 ensures keep1_ok(p, o, other.entries@.contains_key(p.0), other.clock@)
-            { let (entry, mut clock) = p; @*/ {
+            { let $pat = p; @*/ {
                 if !other.entries.contains_key(&entry) {
                     // other doesn't contain this entry because it:
                     //  1. has seen it and dropped it
